@@ -972,6 +972,15 @@ class Engine:
                     if self.global_time_precision is not None:
                         # set future time based on global_time_precision
                         future = round(future, self.global_time_precision)
+                        if process_timestep > 0 and future <= process_time:
+                            # a timestep finer than the time grid would
+                            # never advance the process (and the loop
+                            # would never end)
+                            raise ValueError(
+                                f'the timestep {process_timestep} of the '
+                                f'process at {path} is below the time '
+                                f'grid of global_time_precision='
+                                f'{self.global_time_precision}')
 
                     if future <= end_time:
 
